@@ -241,6 +241,7 @@ MUST_FIRE += [
     ("m90", ["C08"], ["G6"], rep1(S + "tomography.py", "    num_qubits = preparation_circuit.num_qubits if measured_qubits is None else len(measured_qubits)\n", "    if not is_connectivity_supported(preparation_circuit.num_qubits, connectivity):\n        raise ValueError(\"unsupported\")\n    num_qubits = preparation_circuit.num_qubits if measured_qubits is None else len(measured_qubits)\n") if False else
         multi(rep1(S + "tomography.py", "    num_qubits = preparation_circuit.num_qubits if measured_qubits is None else len(measured_qubits)\n", "    if not is_connectivity_supported(preparation_circuit.num_qubits, connectivity):\n        raise ValueError(\"unsupported\")\n    num_qubits = preparation_circuit.num_qubits if measured_qubits is None else len(measured_qubits)\n"),
               rep1(S + "tomography.py", "from .mub_circuits import get_mub_circuits\n", "from .mub_circuits import get_mub_circuits\nfrom .connectivity_support import is_connectivity_supported\n")), "early validation on the register size instead of the number of measured qubits"),
+    ("m91", ["C11"], ["H1"], multi(rep1(S + "tomography.py", "    expectation_value: int = 0\n    total_count: int = 0\n    for result in circuit_result.results:", "    histogram = np.zeros(2**circuit_result.num_qubits)\n    for result in circuit_result.results:\n        histogram[result.bitstring] = result.count\n    expectation_value: int = 0\n    total_count: int = 0\n    for result in circuit_result.results:")), "outcome histogram filled by overwriting"),
     ("m72", ["C13"], ["A3"], rep1(S + "circuit_lookup.py", "result.circuits = [circuit.copy() for circuit in self.circuits]", "result.circuits = list(self.circuits)"), "fresh list of the cached circuits"),
 ]
 
@@ -275,6 +276,7 @@ MUST_STAY_SILENT = [
     ("s24", ["C02", "C04", "C07"], rep1(S + "circuit_lookup.py", "            if instruction[1] == 'x':\n                qc.cx(qubits[0], qubits[1])\n            elif instruction[1] == 'z':\n                qc.cz(qubits[0], qubits[1])\n            else:\n                assert False, \"Invalid instruction name\"", "            assert instruction[1] in 'xz', \"Invalid instruction name\"\n            getattr(qc, instruction[:2])(qubits[0], qubits[1])"), True, "loader dispatches through getattr: outside the vocabulary, must end in exit 2, never in an alarm"),
     ("s25", ["C07"], rep1(S + "stabilizer.py", "            if self.R.dtype != np.int8:\n                self.R = self.R.astype(np.int8)\n            if self.S.dtype != np.int8:\n                self.S = self.S.astype(np.int8)\n        elif isinstance(data, list):", "            if self.R.dtype != np.int8:\n                self.R = self.R.astype(np.int8)\n            if self.S.dtype != np.int8:\n                self.S = self.S.astype(np.int8)\n            self.R &= 1\n            self.S &= 1\n        elif isinstance(data, list):"), False, "the in-place reduction happens only in the tuple branch: a circuit passed to compress is not touched (C07 holds, C13 does not)"),
     ("s26", ["C08", "C02"], multi(rep1(S + "tomography.py", "    num_qubits = preparation_circuit.num_qubits if measured_qubits is None else len(measured_qubits)\n", "    _check_connectivity_name(connectivity)\n    num_qubits = preparation_circuit.num_qubits if measured_qubits is None else len(measured_qubits)\n"), rep1(S + "tomography.py", "Bitstring = np.int64\n", "Bitstring = np.int64\nConnectivity = Literal[\"all\", \"linear\", \"star\", \"cycle\", \"T\", \"Q\", \"E\", \"H\", \"ladder\"]\n\n\ndef _check_connectivity_name(connectivity: str):\n    if connectivity not in get_args(Connectivity):\n        raise ValueError(f\"Unknown connectivity '{connectivity}'\")\n"), rep1(S + "tomography.py", "from typing import Dict, List, Literal, Optional, Sequence, Tuple, Union\n", "from typing import Dict, List, Literal, Optional, Sequence, Tuple, Union, get_args\n")), False, "early name check against the complete list of names"),
+    ("s27", ["C11", "C10"], multi(rep1(S + "tomography.py", "    expectation_value: int = 0\n    total_count: int = 0\n    for result in circuit_result.results:", "    histogram = np.zeros(2**circuit_result.num_qubits)\n    for result in circuit_result.results:\n        histogram[result.bitstring] += result.count\n    expectation_value: int = 0\n    total_count: int = 0\n    for result in circuit_result.results:")), True, "outcome histogram filled by scalar += (accumulates); the extra loop is outside S2's vocabulary (exit 2 tolerated), H1 must stay silent"),
     ("s16", ["C09", "C13", "C02"], rep1(S + "mub_circuits.py", "return circuit_lookup.mub_circuit_lookup(num_qubits, connectivity).circuits", "return [c for c in circuit_lookup.mub_circuit_lookup(num_qubits, connectivity).circuits]"), False, "identity comprehension"),
     ("s15", ["C13"], rep1(S + "graph.py", "    def copy(self):\n        result = Graph(self.num_vertices)", "    def copy(self):\n        # fresh object\n        result = Graph(self.num_vertices)"), False, "comment"),
 ]
